@@ -143,13 +143,14 @@ func (s *simscreen) Init() error {
 
 func (s *simscreen) Fini() {
 	s.Lock()
+	again := s.fini
 	s.fini = true
 	s.back.Resize(0, 0)
 	s.physw = 0
 	s.physh = 0
 	s.front = nil
 	s.Unlock()
-	if s.quit != nil {
+	if s.quit != nil && !again {
 		close(s.quit)
 	}
 }
